@@ -440,6 +440,54 @@ func runDatesHeldElsewhere(r *vk.Run) {
 			}
 		}
 	}
+	// the same calendar day held in Locations whose offsets lie far apart (local mean times of the IANA
+	// data base reach +15:13 and -15:56; time.FixedZone takes anything), at both ends of the day: the
+	// instants are more than two days apart, the dates are equal - and the neighbouring days are not
+	{
+		time.Local = saved
+		far := []*time.Location{time.FixedZone("LMT+15:13:42", 15*3600+13*60+42), time.FixedZone("LMT-15:56", -(15*3600 + 56*60)), time.FixedZone("+18", 18*3600), time.FixedZone("-18", -18*3600),
+			time.FixedZone("+23:59:59", 86399), time.FixedZone("-23:59:59", -86399), time.UTC}
+		for _, name := range []string{"Asia/Manila", "America/Metlakatla", "America/Juneau"} {
+			if l, err := time.LoadLocation(name); err == nil {
+				far = append(far, l)
+			}
+		}
+		clocks := [][3]int{{0, 0, 0}, {12, 0, 0}, {23, 59, 59}}
+		for _, base := range []ymd{{1800, 5, 5}, {2024, 2, 29}, {1844, 12, 31}, {9999, 12, 30}, {1, 1, 3}} {
+			for da := -1; da <= 1; da++ {
+				for db := -1; db <= 1; db++ {
+					ta := time.Date(base.Y, time.Month(base.M), base.D+da, 12, 0, 0, 0, time.UTC)
+					tb := time.Date(base.Y, time.Month(base.M), base.D+db, 12, 0, 0, 0, time.UTC)
+					a, b := ymd{ta.Year(), int(ta.Month()), ta.Day()}, ymd{tb.Year(), int(tb.Month()), tb.Day()}
+					for _, la := range far {
+						for _, lb := range far {
+							for _, ca := range clocks {
+								for _, cb := range clocks {
+									va := time.Date(a.Y, time.Month(a.M), a.D, ca[0], ca[1], ca[2], 0, la)
+									vb := time.Date(b.Y, time.Month(b.M), b.D, cb[0], cb[1], cb[2], 0, lb)
+									if va.Year() != a.Y || va.Day() != a.D || vb.Year() != b.Y || vb.Day() != b.D {
+										continue // (a clock reading the zone does not have on that day)
+									}
+									n++
+									var o obs
+									c := datePair{a, b}
+									desc := fmt.Sprintf("a=Date(%s) b=Date(%s)", va.Format("2006-01-02 15:04:05 -07:00:00"), vb.Format("2006-01-02 15:04:05 -07:00:00"))
+									if p, msg, frame := vk.Guard(func() { o = observe(types.Date(va), types.Date(vb)) }); p {
+										r.Violation("C16/panic/"+frame, fmt.Sprintf("comparing %s panicked: %s", desc, msg), "date-pair", c)
+										continue
+									}
+									want, ok := refDate(r, a, b)
+									if ok && !sound(o, want) {
+										report(r, "Date(held-in-far-apart-locations)", o, want, "date-pair", c, desc)
+									}
+								}
+							}
+						}
+					}
+				}
+			}
+		}
+	}
 	// dates that carry a time of day (a types.Date converted from any time.Time), around removed local
 	// midnights of the Location they are held in: against ToDate of the day before, the same day and the
 	// day after, and against each other when they show the same or adjacent days - by (y, m, d) alone
